@@ -33,3 +33,11 @@ add("C07", "rapid-generated mode graphs and action orderings x texts walking the
     "Generated-input search over nested/recursive mode graphs, rules with several mode actions and emit/discard written at any position; streams compared with a reference lexer that applies mode actions in written order and the emit/discard regardless of position.",
     "Same trusted base as C02.",
     "DESIGN.md §3 C07")
+add("C08", "rapid-generated non-greedy rules (prefix, body, self-overlapping terminators) x texts with terminator look-alikes; compiled lexer vs. an oracle written directly from the statement",
+    "Generated-input search: the token must end at the first occurrence of the terminator after the prefix (>=1 repetition for +?) with all code points in between in the body set; greedy neighbours checked by the derivative reference lexer.",
+    "Greedy rules that share a first character with a non-greedy rule are outside the generated domain (undocumented interaction).",
+    "DESIGN.md §3 C08")
+add("C11", "rapid-generated lexer specs without preconditions x texts; invariants over the recorded PushRune history (termination by step bounds, tiling of the input)",
+    "Generated-input search with a recording proxy between the real simplelexer and the compiled state machine; the recorded history is replayed over the input bytes: EOF only at the end with nothing pending, tokens = accepted stretches, every byte in a token, a discarded stretch or an ERROR stretch; rejection of the spec with a diagnostic is the only other accepted outcome.",
+    "Trusts simplelexer's resync policy as the definition of an ERROR stretch.",
+    "DESIGN.md §3 C11")
